@@ -125,6 +125,50 @@ def run_case(case, tmp):
         def wrap(self, value):
             return App(self.ident, value)
 
+    # user subclasses of the two dictionary composites, with callbacks, state and a data hook of their own: the library
+    # must keep the very objects it was given in the tree (their own events are counted, not part of the model's log)
+    comp = []
+
+    class CountMixin:
+        def _c(self, k):
+            self.counts[k] = self.counts.get(k, 0) + 1
+
+        def setup(self):
+            self._c("setup"); super().setup()
+
+        def teardown(self):
+            self._c("teardown"); super().teardown()
+
+        def on_paused(self):
+            self._c("paused"); super().on_paused()
+
+        def on_resumed(self):
+            self._c("resumed"); super().on_resumed()
+
+        def save_state(self, path):
+            self._c("save"); super().save_state(path)
+
+        def load_state(self, path):
+            self._c("load"); super().load_state(path)
+
+    class CSensorsDict(CountMixin, SensorsDict):
+        def __init__(self, d):
+            super().__init__(d)
+            self.counts = {}
+            comp.append(self)
+
+        def read(self):
+            self._c("data"); return super().read()
+
+    class CActuatorsDict(CountMixin, ActuatorsDict):
+        def __init__(self, d):
+            super().__init__(d)
+            self.counts = {}
+            comp.append(self)
+
+        def operate(self, action):
+            self._c("data"); super().operate(action)
+
     def wrapper(s):
         if s["t"] == "wobj":
             return RWrapper(s["id"])
@@ -135,14 +179,14 @@ def run_case(case, tmp):
         if s["t"] == "sensor":
             return RSensor(s["id"])
         if s["t"] == "sdict":
-            return SensorsDict({str(k): sensor(c) for k, c in s["children"]})
+            return CSensorsDict({str(k): sensor(c) for k, c in s["children"]})
         return SensorWrapper(sensor(s["sensor"]), wrapper(s["wrapper"]))
 
     def actuator(s):
         if s["t"] == "actuator":
             return RActuator(s["id"])
         if s["t"] == "adict":
-            return ActuatorsDict({str(k): actuator(c) for k, c in s["children"]})
+            return CActuatorsDict({str(k): actuator(c) for k, c in s["children"]})
         return ActuatorWrapper(actuator(s["actuator"]), wrapper(s["wrapper"]))
 
     def env(s):
@@ -192,7 +236,8 @@ def run_case(case, tmp):
         import traceback
         return {"error": f"{type(e).__name__}: {e}", "tb": traceback.format_exc()[-800:]}
     return {"events": [events[k] for k in ["setup", "teardown", "paused", "resumed", "attach_models", "attach_collectors"]],
-            "saved": saved, "loaded": loaded, "own": state["own"], "ok": ok, "obs": obs, "delivered": delivered}
+            "saved": saved, "loaded": loaded, "own": state["own"], "ok": ok, "obs": obs, "delivered": delivered,
+            "composites": [c.counts for c in comp]}
 
 
 def main():
